@@ -21,8 +21,20 @@
 * nothing runs concurrently: `pump()` moves the queued traffic until both directions are empty;
   `call()` has its wait scripted (threads: the event's `wait()` pumps the link; asyncio: the call
   is a task of the private loop, the link is pumped while it is suspended).  No wall-clock waits.
+* asyncio only, `pump_concurrent()`: a burst is delivered the way the real engine.io cores do it.
+  Towards the client every arrived packet goes through the real `engineio.AsyncClient._receive_packet`
+  (one task per message, created in arrival order, none awaited); towards the server every packet is
+  awaited through the real `AsyncSocket.receive` and, with `async_handlers=True`, socket.io's own
+  `start_background_task` (`asyncio.ensure_future`) is in place, so the handler tasks exist side by
+  side.  Between two packets the loop gets a scripted number of turns (0 = same polling payload).
+  Then the loop is run to quiescence: every task created since the delivery began is done, no
+  `call_soon` is outstanding and no job is waiting in the loop's default executor.  That executor is
+  the harness's (`HarnessExecutor`): it never starts a thread; while a burst is delivered
+  concurrently its jobs are parked and run, one at a time, only when the loop has nothing left to do
+  (a pool thread that is slow to start: a legitimate schedule), otherwise they run at submission.
 """
 import asyncio
+import concurrent.futures
 
 from . import common  # noqa: F401
 from . import world as W
@@ -97,6 +109,41 @@ class _VAsyncClient(socketio.AsyncClient):
         return AsyncLinkEio
 
 
+class HarnessExecutor(concurrent.futures.ThreadPoolExecutor):
+    """The default executor of the private loop.  No thread is ever started: a submitted job either
+    runs at once in the caller (`park` off) or is parked until `run_one()` (`park` on); every
+    submission is counted, nothing is lost."""
+
+    def __init__(self):
+        super().__init__(max_workers=1)
+        self.park = False
+        self.parked = []
+        self.submitted = 0
+
+    def submit(self, fn, /, *args, **kwargs):
+        fut = concurrent.futures.Future()
+        self.submitted += 1
+        if self.park:
+            self.parked.append((fut, fn, args, kwargs))
+        else:
+            self._do(fut, fn, args, kwargs)
+        return fut
+
+    @staticmethod
+    def _do(fut, fn, args, kwargs):
+        if not fut.set_running_or_notify_cancel():
+            return
+        try:
+            r = fn(*args, **kwargs)
+        except BaseException as ex:   # noqa
+            fut.set_exception(ex)
+        else:
+            fut.set_result(r)
+
+    def run_one(self, last=False):
+        self._do(*self.parked.pop(-1 if last else 0))
+
+
 class ScriptedEvent:
     """threading.Event stand-in for `call()`: waiting = letting the link run."""
 
@@ -139,13 +186,18 @@ class E2EWorld:
         self.sw = W.ServerWorld(mode, serializer=serializer, async_handlers=async_handlers,
                                 namespaces='*')
         self.loop = self.sw.loop
+        self.executor = None
+        if self.is_async:
+            self.executor = HarnessExecutor()
+            self.loop.set_default_executor(self.executor)
+        self.nserial = 0
         self.ceio_log = W._Quiet()
         opts = dict(serializer=serializer, reconnection=False, handle_sigint=False,
                     engineio_logger=self.ceio_log)
         self.client = _VAsyncClient(**opts) if self.is_async else _VClient(**opts)
         self.ceio = self.client.eio
         self.ceio.link = self
-        self._handlers = set()
+        self._handlers = {}
         for side in ('server', 'client'):
             self._trap(side)
         self.sw.open(self.TID)
@@ -226,6 +278,144 @@ class E2EWorld:
         finally:
             self._pumping = False
 
+    # ------------------------------------------------------------ concurrent delivery (asyncio)
+    IDLE_TURNS = 24      # loop turns without any observable progress before the loop counts as idle
+    MAX_TURNS = 20000
+
+    def pump_concurrent(self, gaps, exec_lifo=False):
+        """Deliver what the sender queued the way the real engine.io does (see the module text), run
+        the loop to quiescence, then move the replies with `pump()`.  -> statistics of the delivery:
+        tasks created, executor jobs submitted / run while parked, tasks that never finished."""
+        if not self.is_async:
+            raise common.Infra('concurrent delivery is an asyncio scenario')
+        if self._pumping:
+            raise common.Infra('re-entrant pump')
+        self._pumping = True
+        info = {'tasks': 0, 'executor_jobs': 0, 'parked_jobs_run': 0, 'stuck': [], 'frames': 0, 'turns': 0}
+        try:
+            if self.c2s:
+                batch, self.c2s = self.c2s, []
+                arrived = self._transport(batch)
+                self.wire['c2s'] += arrived
+                sock = self.sw.socks[self.TID]
+
+                async def feed(data):
+                    # engineio.AsyncServer: `await socket.receive(pkt)` for every packet of the
+                    # POST payload / every WebSocket frame, one after the other
+                    before = len(self.sw.eio_log.errors)
+                    try:
+                        await sock.receive(eio_packet.Packet(MESSAGE, data))
+                    except Exception as ex:   # noqa
+                        self.errors.append(('server', type(ex).__name__))
+                    for _m, cls in self.sw.eio_log.errors[before:]:
+                        self.errors.append(('server', cls))
+                self._concurrently(feed, arrived, gaps, exec_lifo, info, server=True)
+            else:
+                out = [d for d in self.sw.sent(self.TID) if not isinstance(d, tuple)]
+                arrived = self._transport([eio_packet.Packet(MESSAGE, d) for d in out])
+                self.wire['s2c'] += arrived
+
+                async def feed(data):
+                    # engineio.AsyncClient read loops: `await self._receive_packet(pkt)`, which
+                    # starts the `message` handler as a task of its own and does not wait for it
+                    before = len(self.ceio_log.errors)
+                    try:
+                        await self.ceio._receive_packet(eio_packet.Packet(MESSAGE, data))
+                    except Exception as ex:   # noqa
+                        self.errors.append(('client', type(ex).__name__))
+                    for _m, cls in self.ceio_log.errors[before:]:
+                        self.errors.append(('client', cls))
+                self._concurrently(feed, arrived, gaps, exec_lifo, info, server=False)
+        finally:
+            self._pumping = False
+        self.pump()
+        return info
+
+    def _concurrently(self, feed, arrived, gaps, exec_lifo, info, server):
+        loop, ex = self.loop, self.executor
+        created = []
+
+        def factory(lp, coro, **kw):
+            t = asyncio.Task(coro, loop=lp, **kw)
+            created.append(t)
+            return t
+
+        state = {'fed': 0}
+
+        def signature():
+            return (state['fed'], len(created), sum(1 for t in created if t.done()), len(self.log), len(self.c2s),
+                    self.sw.socks[self.TID].queue.qsize(), ex.submitted, len(ex.parked), len(self.errors))
+
+        async def feeder():
+            # the transport's reader: packets in arrival order; it waits for whatever the real receive
+            # path waits for (the server awaits inline handlers, the client awaits nothing)
+            for i, data in enumerate(arrived):
+                await feed(data)
+                state['fed'] += 1
+                for _ in range(gaps[i % len(gaps)] if gaps else 0):
+                    await asyncio.sleep(0)
+
+        async def main():
+            reader = asyncio.Task(feeder(), loop=loop)      # harness task: not through the factory
+            idle, last = 0, None
+            while True:
+                info['turns'] += 1
+                if info['turns'] > self.MAX_TURNS:
+                    reader.cancel()
+                    raise common.Infra('concurrent delivery does not come to rest')
+                await asyncio.sleep(0)
+                sig = signature()
+                if sig != last:
+                    idle, last = 0, sig
+                    continue
+                idle += 1
+                if idle < self.IDLE_TURNS:
+                    continue
+                # the loop has nothing left to do: now (and only now) a pool thread gets to run
+                if ex.parked:
+                    ex.run_one(last=exec_lifo)
+                    info['parked_jobs_run'] += 1
+                    idle = 0
+                    continue
+                break
+            if not reader.done():
+                info['stuck'].append('transport reader blocked in receive() of packet %d' % state['fed'])
+                reader.cancel()
+                await asyncio.gather(reader, return_exceptions=True)
+            elif reader.exception() is not None:
+                raise reader.exception()
+
+        saved_bg = None
+        if server and self.sw.sio.async_handlers and 'start_background_task' in self.sw.sio.__dict__:
+            # socket.io's own start_background_task (eio.start_background_task = ensure_future)
+            saved_bg = self.sw.sio.__dict__.pop('start_background_task')
+        submitted0 = ex.submitted
+        ex.park = True
+        old_factory = loop.get_task_factory()
+        try:
+            top = asyncio.Task(main(), loop=loop)       # not through the factory: not a library task
+            loop.set_task_factory(factory)
+            loop.run_until_complete(top)
+        finally:
+            loop.set_task_factory(old_factory)
+            ex.park = False
+            while ex.parked:                             # only after an Infra error
+                ex.run_one()
+            if saved_bg is not None:
+                self.sw.sio.start_background_task = saved_bg
+        stuck = [t for t in created if not t.done()]
+        for t in stuck:
+            info['stuck'].append(getattr(t.get_coro(), '__qualname__', repr(t.get_coro())))
+            t.cancel()
+        if stuck:
+            loop.run_until_complete(asyncio.gather(*stuck, return_exceptions=True))
+        for t in created:
+            if t.done() and not t.cancelled() and t.exception() is not None:
+                self.errors.append(('task', type(t.exception()).__name__))
+        info['tasks'] += len(created)
+        info['frames'] += len(arrived)
+        info['executor_jobs'] += ex.submitted - submitted0
+
     def take_wire(self):
         w, self.wire = self.wire, {'c2s': [], 's2c': []}
         return w
@@ -245,28 +435,39 @@ class E2EWorld:
         the next scripted result."""
         key = (side, ns, ev)
         if key in self._handlers:
-            return
-        self._handlers.add(key)
+            return self._handlers[key]
+        kind = 'coro' if coro and self.is_async else 'plain'
+        self._handlers[key] = kind
         world = self
 
-        def body(args):
+        def enter(args):
+            # handler entry: the invocation is recorded (and the scripted result taken) *here*, so the
+            # log says in which order the handlers STARTED; ['done', side, serial] follows when the
+            # handler returns
             if side == 'server':
                 sid, args = args[0] if args else None, args[1:]
                 if sid != world.sids.get(ns):
                     world.log.append(['wrong-sid', side, ns, ev, sid])
-            world.log.append(['h', side, ns, ev, list(args)])
+            world.nserial += 1
+            serial = world.nserial
+            world.log.append(['h', side, ns, ev, list(args), serial])
             q = world.rets[side]
-            return q.pop(0) if q else None
+            return serial, (q.pop(0) if q else None)
 
-        if coro and self.is_async:
+        if kind == 'coro':
             async def f(*args):
+                serial, ret = enter(args)
                 await asyncio.sleep(0)
-                return body(args)
+                world.log.append(['done', side, serial])
+                return ret
         else:
             def f(*args):
-                return body(args)
+                serial, ret = enter(args)
+                world.log.append(['done', side, serial])
+                return ret
         sio = self.sw.sio if side == 'server' else self.client
         sio.on(ev, f, namespace=ns)
+        return kind
 
     def callback(self, side, tok, coro=False):
         world = self
